@@ -674,7 +674,9 @@ func createConnHandler(
 			if firstErr == io.EOF {
 				// The client half-closed without sending a message.
 				clientStream.CloseSend() //nolint:errcheck
-			} else if err := clientStream.SendMsg(args); err != nil {
+			} else if err := clientStream.SendMsg(args); err != nil && err != io.EOF {
+				// io.EOF only says that the back-end has already ended the
+				// call: its status is delivered by RecvMsg below.
 				return err
 			}
 
